@@ -2,7 +2,9 @@
 """Write seeded/<id>/meta.json from the sub-agent's notes, the confirmation log and the check logs; TABLE holds my reading of the result."""
 import glob, json, os, re, sys
 V = os.path.dirname(os.path.dirname(os.path.abspath(__file__)))
-TABLE = json.load(open(os.path.join(V, "seeded", "round2.json")))
+RFILE = sys.argv[1] if len(sys.argv) > 1 else "round2.json"
+ROUND = int(re.search(r"(\d+)", RFILE).group(1))
+TABLE = json.load(open(os.path.join(V, "seeded", RFILE)))
 for sid, t in TABLE.items():
     d = os.path.join(V, "seeded", sid)
     am = json.load(open(os.path.join(d, "agent_meta.json")))
@@ -13,7 +15,7 @@ for sid, t in TABLE.items():
     for f in sorted(glob.glob(os.path.join(d, "check_*.log"))):
         logs[os.path.basename(f)] = [l.rstrip()[:220] for l in open(f) if re.match(r"^(VIOLATION|KNOWN|== |   INCONCLUSIVE)", l)]
     meta = {
-        "id": sid, "property": t["property"], "round": 2, "summary": t["summary"], "needs_to_manifest": t["needs"],
+        "id": sid, "property": t["property"], "round": ROUND, "summary": t["summary"], "needs_to_manifest": t["needs"],
         "agent_meta": am,
         "confirmed": {
             "demo_fails_with_change": bool(res) and res[0][0] == "FAILED",
